@@ -1174,6 +1174,7 @@ package keyvalue
 //@   loop 1 modifies mapOf(ms(fs).records), held(ms(fs).mu), world()
 //@   loop 1 invariant "inv" fsMem(fs) && VP(oldname) && VP(newname) && rangeindex >= -1 && rangeindex < max(len(files), 1) && (len(files) > 0 || rangeindex == -1) && world() == old(world())
 //@   ensures "gate" [C04 C05] implies(!VP(oldname) || !VP(newname), linkErr(err, oldname, newname) && errIs(err, hackpadfs.ErrInvalid) && memSame(fs) && world() == old(world()))
+//@   ensures "root" [C03] implies(rnValid(oldname, newname) && oldname == "." && old(kvHas(fs, ".")), linkErr(err, oldname, newname) && errIs(err, hackpadfs.ErrPermission) && memSame(fs))
 //@   ensures "missing-source" [C01 C05] implies(rnValid(oldname, newname) && !old(kvHas(fs, oldname)), linkErr(err, oldname, newname) && errIs(err, hackpadfs.ErrNotExist) && memSame(fs))
 //@   ensures "same-file" [C01] implies(rnValid(oldname, newname) && old(rnSrcFile(fs, oldname)) && oldname == newname, err == nil && memSame(fs))
 //@   ensures "dest-is-dir" [C01 C03 C05] implies(rnValid(oldname, newname) && old(kvHas(fs, oldname)) && old(kvHas(fs, newname)) && old(memIsDir(fs, newname)) && !(oldname == newname && !old(memIsDir(fs, oldname))),
